@@ -30,6 +30,11 @@ REQS = [
     ("G", False, b"/e\r\n"), ("S", False, b"localhost /d 0\r\n"), ("W", False, b"GET /wap/d HTTP/1.0\r\n\r\n"),
     ("GEM", True, b"gemini://localhost/d\r\n"), ("G", True, b"/d\r\n"), ("H", True, b"GET /e HTTP/1.0\r\n\r\n"),
     ("G", False, b"/big.bin\r\n"),
+    # a WAP browser recognised by its headers only, and header-less / header-bearing HTTP clients after it:
+    # per-connection header state must never be visible to another connection
+    ("WH", False, b"GET /d HTTP/1.0\r\nAccept: text/html, text/vnd.wap.wml\r\nX-Wap-Profile: http://example/p.xml\r\n\r\n"),
+    ("H", False, b"GET /e HTTP/1.0\r\n\r\n"),
+    ("H", False, b"GET /d/a HTTP/1.0\r\nUser-Agent: x\r\n\r\n"),
 ]
 
 
@@ -53,6 +58,34 @@ def client(port, tls, data, result, idx, start_evt, silent_first=0.0):
         result[idx] = b"".join(chunks)
     except Exception as e:  # noqa
         result[idx] = ("ERR", repr(e))
+
+
+def alone_fresh(data, tls):
+    """The answer a client gets ALONE: from a process that has served nothing before (forked child, fresh
+    module state), through the same real connection handler, in memory."""
+    r, wfd = os.pipe()
+    pid = os.fork()
+    if pid == 0:
+        try:
+            os.close(r)
+            from harness.world import World
+            w = World()
+            tree(w)
+            out = w.request(data, tls=tls).out
+            w.close()
+            os.write(wfd, out)
+        finally:
+            os._exit(0)
+    os.close(wfd)
+    chunks = []
+    while True:
+        b = os.read(r, 1 << 16)
+        if not b:
+            break
+        chunks.append(b)
+    os.close(r)
+    os.waitpid(pid, 0)
+    return b"".join(chunks)
 
 
 def build(servertype):
@@ -91,15 +124,29 @@ def main():
         th = threading.Thread(target=server.serve_forever, kwargs={"poll_interval": 0.05}, daemon=True)
         th.start()
         try:
-            # sequential answers ("alone"), cache cold each time
+            # the answer each client gets alone: fresh process, nothing served before
             alone = {}
             for (p, tls, data) in REQS:
+                alone[(p, tls, data)] = alone_fresh(data, tls)
+            # fixed sequences of connections, one after the other on the live server: state left behind by one
+            # connection (headers, lazies, caches) must not show in the next one's answer
+            ev = threading.Event()
+            ev.set()
+            seqs = [[REQS[3], REQS[14], REQS[15], REQS[16], REQS[3]], [REQS[9], REQS[3], REQS[0], REQS[2], REQS[3]]]
+            for si, seq in enumerate(seqs):
                 tree(w)
-                res = {}
-                ev = threading.Event()
-                ev.set()
-                client(port, tls, data, res, 0, ev)
-                alone[(p, tls, data)] = res[0]
+                events = []
+                for (p, tls, data) in seq:
+                    res = {}
+                    client(port, tls, data, res, 0, ev)
+                    out = res.get(0)
+                    ok = isinstance(out, bytes) and len(out) > 0
+                    same = ok and normalise(out) == normalise(alone[(p, tls, data)])
+                    events.append({"ev": "resp", "w": 0, "p": p, "same": bool(same), "ok": bool(ok), "raw": "" if same else repr(out)[:300]})
+                events.append({"ev": "end", "served": sum(1 for e in events if e["ok"]), "expected": len(seq), "alive": True, "zombies": 0})
+                traces.append({"id": "live %s sequence %d" % (servertype, si), "events": events,
+                               "case": {"kind": "live-seq", "server": servertype, "seq": si,
+                                        "requests": [d.decode("latin-1") for (_p, _t, d) in seq]}})
             for b in range(bursts):
                 tree(w)                      # cold cache, and (threading) lazies already set; first burst of a
                 picks = [REQS[rnd.randrange(len(REQS))] for _ in range(nclients)]   # fresh server covers start-up
